@@ -258,6 +258,22 @@ def run (ctx):
       # D5 family
       t = kwarg(c, 'type', 0); cd = kwarg(c, 'code', 1)
       _family(ctx, repo, swmod, f, c, t, cd, spec)
+      # nothing on the way to the error reply may fail on the very value that is being rejected: a lookup `TABLE[<field of the
+      # request>]` in a name table raises KeyError for exactly the unknown values this path exists for (the error is never sent)
+      gf_ = q.cfg_of(f); en_ = q.enclosing_stmt_node(gf_, c)
+      if en_ is not None:
+        for n_ in gf_.nodes:
+          if n_.ast is None or n_.kind in ('def', 'branch', 'handler', 'join') or not (n_ is en_ or gf_.dominates(n_, en_, exc=False)): continue
+          for x_ in (walk_no_nested(n_.ast) if not isinstance(n_.ast, (ast.If, ast.While, ast.For, ast.Try, ast.With)) else []):
+            if not (isinstance(x_, ast.Subscript) and isinstance(x_.ctx, ast.Load) and isinstance(x_.value, ast.Name) and not isinstance(x_.slice, ast.Slice)): continue
+            if x_.value.id in f.params or q.reaching_assign(f.node, x_.value.id): continue          # a local / parameter, not a module-level table
+            keyed = [a_ for a_ in ast.walk(x_.slice) if isinstance(a_, ast.Attribute) and isinstance(a_.value, ast.Name) and a_.value.id in ps]
+            if not keyed: continue
+            fs_ = q.fact_strs(gf_, n_)
+            guarded = any((' in %s' % x_.value.id) in f_ and 'not in' not in f_ for f_ in fs_) or any(h_.ast.type is None or any(k_ in norm(h_.ast.type) for k_ in ('KeyError', 'LookupError', 'Exception')) for h_ in gf_.handlers_for(n_))
+            ctx.ob('R-CONTAIN', f, "the lookup `%s` on the way to the error reply cannot fail" % norm(x_)[:40], guarded, "guarded" if guarded else
+                   "`%s` is evaluated before `%s` with a key taken from the request: for a value the table does not list - which is what this error path is for - it raises KeyError, the handler fails and no error "
+                   "(nor any reply) is sent for the request" % (norm(x_)[:50], norm(c)[:40]), (swmod, x_), 'D6')
   ctx.floor('send_error sites', n_err, 6)
   # send_error itself: xid from ofp, one send
   se = q.find_method(repo, sw, 'send_error', 'C13')
